@@ -289,7 +289,7 @@ WouldPutOf(E, n, c, k) ==
     \/ c + 1 <= cmax
     \/ i >= n
     \/ k \in DOMAIN E
-    \/ \E j \in 0..(i - 1) : Cardinality(InB(E, j)) < cmin
+    \/ \E j \in 0..(i - 1) : Cardinality(InB(E, j)) > cmin      \* a farther bucket has something to evict
 
 -----------------------------------------------------------------------------
 (* Property operators (C18, C19).  They mention only the observable state  *)
